@@ -40,8 +40,10 @@ polvars == <<impPol, expPol, inrPol, expEff>>
 pvars == <<up, inr, loc, impPol, expPol, inrPol, expEff>>
 
 (* the closed policy family of C15 (all conditions are on prefix "x1"):
-   acc = accept everything, rejx1 = reject x1, medx1 = set MED 77 on x1, ppx1 = prepend 65099 twice *)
-Pols == {"acc", "rejx1", "medx1", "ppx1"}
+   acc = accept everything, rejx1 = reject x1, medx1 = set MED 77 on x1, ppx1 = prepend 65099 twice,
+   rejA = reject the routes for x1 whose AS_PATH contains AS 65001 (discriminates between the paths
+   of one prefix, which matters for ADD-PATH neighbours) *)
+Pols == {"acc", "rejx1", "medx1", "ppx1", "rejA"}
 
 PInit == /\ up  = [p \in Peers |-> FALSE]
          /\ inr = [p \in Peers |-> [x \in Prefixes |-> NoRoute]]
@@ -90,12 +92,26 @@ EffLp(r) == IF r.src # LOCSRC /\ IsIBGPKind(Kind(r.src)) /\ r.lp # -1 THEN r.lp 
 
 AsLen(r) == r.len + r.pp
 
+(* concrete AS_PATH of a route as a sequence of ASNs (fillers are distinct private-use numbers
+   that never collide with a neighbour's AS) *)
+FirstAS(r) == IF r.src = LOCSRC THEN 0
+              ELSE IF Kind(r.src) \in {"ebgp", "rs"} THEN PInfo[r.src].as ELSE 64700 + PInfo[r.src].idx
+Filler(r)  == [i \in 1..(r.len - 1 - (IF r.via # 0 THEN 1 ELSE 0) - (IF r.loop THEN 1 ELSE 0))
+                 |-> 64800 + 10 * PInfo[r.src].idx + i]
+Prep(n)    == [i \in 1..n |-> 65099]
+AsPath(r)  == Prep(r.pp) \o
+              (IF r.src = LOCSRC THEN <<>>
+               ELSE <<FirstAS(r)>> \o Filler(r) \o (IF r.via # 0 THEN <<r.via>> ELSE <<>>)
+                    \o (IF r.loop THEN <<LocalAS>> ELSE <<>>))
+InPath(as, r) == \E i \in 1..Len(AsPath(r)) : AsPath(r)[i] = as
+
 (* import policy applied to a received route (evaluated when it arrived / at the last soft reset in) *)
 ImpApply(pol, x, r) ==
   IF x # "x1" \/ pol = "acc" THEN r
   ELSE CASE pol = "rejx1" -> NoRoute
          [] pol = "medx1" -> [r EXCEPT !.med = 77]
          [] pol = "ppx1"  -> [r EXCEPT !.pp = 2]
+         [] pol = "rejA"  -> IF r # NoRoute /\ InPath(65001, r) THEN NoRoute ELSE r
 
 Imported(p, x) == ImpApply(inrPol[p][x], x, inr[p][x])
 
@@ -118,18 +134,6 @@ Ordered(S) == \* best-first sequence of sources
 ---------------------------------------------------------------------------
 (* what a neighbour must have been told *)
 
-(* concrete AS_PATH of a route as a sequence of ASNs (fillers are distinct private-use numbers
-   that never collide with a neighbour's AS) *)
-FirstAS(r) == IF r.src = LOCSRC THEN 0
-              ELSE IF Kind(r.src) \in {"ebgp", "rs"} THEN PInfo[r.src].as ELSE 64700 + PInfo[r.src].idx
-Filler(r)  == [i \in 1..(r.len - 1 - (IF r.via # 0 THEN 1 ELSE 0) - (IF r.loop THEN 1 ELSE 0))
-                 |-> 64800 + 10 * PInfo[r.src].idx + i]
-Prep(n)    == [i \in 1..n |-> 65099]
-AsPath(r)  == Prep(r.pp) \o
-              (IF r.src = LOCSRC THEN <<>>
-               ELSE <<FirstAS(r)>> \o Filler(r) \o (IF r.via # 0 THEN <<r.via>> ELSE <<>>)
-                    \o (IF r.loop THEN <<LocalAS>> ELSE <<>>))
-InPath(as, r) == \E i \in 1..Len(AsPath(r)) : AsPath(r)[i] = as
 
 (* never back to the router it came from; not to an eBGP neighbour whose AS is in the path;
    not from a non-client internal neighbour to another non-client internal neighbour *)
@@ -159,6 +163,7 @@ ExpApply(pol, x, e) ==
   ELSE CASE pol = "rejx1" -> NoRoute
          [] pol = "medx1" -> [e EXCEPT !.med = 77]
          [] pol = "ppx1"  -> [e EXCEPT !.aspath = Prep(2) \o @]
+         [] pol = "rejA"  -> IF \E i \in 1..Len(e.aspath) : e.aspath[i] = 65001 THEN NoRoute ELSE e
 
 ExportOf(p, x) ==
   LET S == LocRibExpected(x) IN
